@@ -82,6 +82,10 @@ type e2eRig struct {
 	tagR             string
 	cfgR             ruleCfg
 	cmR              *forwarder.CredentialsMatcher
+	PC               [2]*g01rig.Proxy // --credentials tables, through the scripted upstream proxy (any target host works)
+	tagC             [2]string
+	cfgC             [2]ruleCfg
+	cmC              [2]*forwarder.CredentialsMatcher
 }
 
 func learn(o *g01rig.Origin, sink *g01rig.Origin, p *g01rig.Proxy) (string, error) {
@@ -161,6 +165,23 @@ func newE2ERig() (*e2eRig, error) {
 	if rg.tagR, err = learn(o, o, pr); err != nil {
 		return nil, err
 	}
+	rg.cfgC = [2]ruleCfg{
+		{Name: "credentials: exact, *:port, host:*", Creds: []string{"exact6:p1@[::1]:80", "exact4:p2@10.9.8.7:8080", "exactname:p3@name.example:80",
+			"anyhost81:p4@*:81", "v6anyport:p5@[2001:db8::5]:*", "nameanyport:p6@wild.example:*"}},
+		{Name: "credentials: exact, *:port, host:*, *:*", Creds: []string{"exact6:p1@[::1]:8443", "anyhost80:p7@*:80", "v4anyport:p8@192.0.2.1:*", "global:p9@*:*"}},
+	}
+	for k := range rg.cfgC {
+		rg.cmC[k] = credentialsFor(rg.cfgC[k])
+		pc, err := g01rig.StartProxyOpts("forwarder", g01rig.ProxyOpts{ConnectHeaderCallback: true, Credentials: rg.cmC[k], Tweak: deny})
+		if err != nil {
+			return nil, err
+		}
+		pc.SetUpstream(&url.URL{Scheme: "http", Host: p.Addr()})
+		rg.PC[k] = pc
+		if rg.tagC[k], err = learn(o, p, pc); err != nil {
+			return nil, err
+		}
+	}
 	if rg.tagS, err = learn(o, o, ps); err != nil {
 		return nil, err
 	}
@@ -182,6 +203,8 @@ func (rg *e2eRig) stop() {
 	rg.PM.Stop()
 	rg.PS.Stop()
 	rg.PR.Stop()
+	rg.PC[0].Stop()
+	rg.PC[1].Stop()
 	rg.O.Close()
 	rg.P.Close()
 	rg.T.Close()
@@ -270,6 +293,9 @@ func (rg *e2eRig) runConn(c xconn) ([]xobsJ, []sentInfo) {
 		px, tag = rg.PS, rg.tagS
 	case "R":
 		px, tag = rg.PR, rg.tagR
+	case "C1", "C2":
+		k := int(c.Mode[1] - '1')
+		px, sink, tag = rg.PC[k], rg.P, rg.tagC[k]
 	}
 	obs := make([]xobsJ, len(c.Reqs))
 	sent := make([]sentInfo, len(c.Reqs))
@@ -460,6 +486,8 @@ func (rg *e2eRig) coqXcase(c xconn, i int, o xobsJ, s sentInfo) string {
 		tag = rg.tagS
 	case "R":
 		tag = rg.tagR
+	case "C1", "C2":
+		tag, mode = rg.tagC[int(c.Mode[1]-'1')], 1
 	}
 	maj, min := protoNums(q.Proto)
 	in := fmt.Sprintf("{| xi_mode := %d; xi_tag := %s; xi_client_ip := %s; xi_method := %s; xi_target := %s; xi_maj := %d; xi_min := %d; xi_fields := %s; xi_framing := %d; xi_blen := %d; xi_trailers := %s |}",
@@ -470,7 +498,16 @@ func (rg *e2eRig) coqXcase(c xconn, i int, o xobsJ, s sentInfo) string {
 		coqFields(o.Trailers))
 	if c.Mode == "R" {
 		u := &url.URL{Scheme: "http", Host: rg.O.Addr(), Path: "/"}
-		return "{| y_cfg := " + coqCfg(rg.cfgR, rg.cmR, u) + "; y_in := " + in + "; y_obs := " + ob + " |}"
+		return "{| y_cfg := " + coqCfg(rg.cfgR, rg.cmR, u) + "; y_want := " + coqWant(rg.cfgR.Creds, "http", rg.O.Addr()) + "; y_in := " + in + "; y_obs := " + ob + " |}"
+	}
+	if strings.HasPrefix(c.Mode, "C") {
+		k := int(c.Mode[1] - '1')
+		authority := strings.TrimPrefix(s.target, "http://")
+		if i := strings.IndexAny(authority, "/?"); i >= 0 {
+			authority = authority[:i]
+		}
+		u := &url.URL{Scheme: "http", Host: authority, Path: "/"}
+		return "{| y_cfg := " + coqCfg(rg.cfgC[k], rg.cmC[k], u) + "; y_want := " + coqWant(rg.cfgC[k].Creds, "http", authority) + "; y_in := " + in + "; y_obs := " + ob + " |}"
 	}
 	return "{| x_in := " + in + "; x_obs := " + ob + " |}"
 }
@@ -796,6 +833,23 @@ func runE2E(r *rng.R, tier, out string, m *meta) {
 		}
 		conns = append(conns, xconn{Kind: "e2e", Mode: "S", TrickleMs: int(slowHeaderTimeout/time.Millisecond)/2 + 50, Reqs: reqs})
 	}
+	// --credentials tables: targets that are IPv6 / IPv4 literals and names, with and without an explicit port
+	credTargets := []string{"[::1]", "[::1]:80", "[::1]:8443", "[::1]:81", "[2001:db8::5]", "[2001:db8::5]:9", "[2001:db8::6]", "10.9.8.7", "10.9.8.7:8080",
+		"10.9.8.7:81", "192.0.2.1", "192.0.2.1:7", "name.example", "name.example:80", "name.example:81", "wild.example", "wild.example:4444", "other.example", "other.example:8080"}
+	for k := 0; k < 2; k++ {
+		for i, a := range credTargets {
+			q := xreq{Method: "GET", Target: fmt.Sprintf("http://%s/cred-%d", a, i), Proto: "HTTP/1.1", Framing: "none",
+				Fields: []g01rig.Field{{Name: "Host", Value: a}, {Name: "X-A", Value: "cred"}}}
+			reqs := []xreq{q}
+			if i%4 == 0 { // a client supplied Authorization is never replaced
+				q2 := q
+				q2.Target = fmt.Sprintf("http://%s/cred-own-%d", a, i)
+				q2.Fields = append(append([]g01rig.Field{}, q.Fields...), g01rig.Field{Name: "Authorization", Value: "Bearer client"})
+				reqs = append(reqs, q2)
+			}
+			conns = append(conns, xconn{Kind: "e2e", Mode: fmt.Sprintf("C%d", k+1), Reqs: reqs})
+		}
+	}
 	for k := 0; k < 2; k++ { // Expect: 100-continue through the ordinary proxies (direct and via the upstream proxy)
 		q := xreq{Method: "PUT", Target: fmt.Sprintf("http://{O}/expect-%d", k), Proto: "HTTP/1.1", BodySeed: r.U64(), BodyLen: 4097, Framing: []string{"cl", "chunked"}[k],
 			Fields: []g01rig.Field{{Name: "Host", Value: "{O}"}, {Name: "Expect", Value: "100-continue"}}}
@@ -843,7 +897,7 @@ func runE2E(r *rng.R, tier, out string, m *meta) {
 			} else if q.BodyLen >= 4096 {
 				stats["body>=4KiB"]++
 			}
-			if c.Mode == "R" {
+			if c.Mode == "R" || strings.HasPrefix(c.Mode, "C") {
 				yc = append(yc, rg.coqXcase(c, i, o, sent[i]))
 				yj = append(yj, xrec{Conn: c, Index: i, Kind: "e2e", Obs: o})
 				continue
@@ -885,6 +939,73 @@ func runE2E(r *rng.R, tier, out string, m *meta) {
 		m.Shards = append(m.Shards, fmt.Sprintf("ycases_%03d.v", i))
 	}
 	writeJSONL(out, "ycases.jsonl", yj)
+}
+
+// ---- independent reference for --credentials (documented precedence: exact host:port, then *:port, then host:*,
+// then *:*; a URL without a port uses 80 for http and 443 for https).  Deliberately written from the documentation,
+// without net.SplitHostPort / JoinHostPort and without looking at CredentialsMatcher.
+type credEntry struct{ user, pass, host, port string } // host "*" / port "*" are wildcards; host without brackets
+
+func parseCredEntry(s string) credEntry {
+	at := strings.LastIndex(s, "@")
+	up, hp := s[:at], s[at+1:]
+	e := credEntry{}
+	if i := strings.Index(up, ":"); i >= 0 {
+		e.user, e.pass = up[:i], up[i+1:]
+	} else {
+		e.user = up
+	}
+	e.user, _ = url.PathUnescape(e.user)
+	e.pass, _ = url.PathUnescape(e.pass)
+	e.host, e.port = splitAuthority(hp)
+	if e.port == "0" {
+		e.port = "*"
+	}
+	return e
+}
+
+// splitAuthority: "[v6]:port", "[v6]", "host:port", "host" -> host without brackets, port ("" if none)
+func splitAuthority(a string) (string, string) {
+	if strings.HasPrefix(a, "[") {
+		end := strings.Index(a, "]")
+		host, rest := a[1:end], a[end+1:]
+		return host, strings.TrimPrefix(rest, ":")
+	}
+	if i := strings.LastIndex(a, ":"); i >= 0 {
+		return a[:i], a[i+1:]
+	}
+	return a, ""
+}
+
+func refSelect(entries []string, scheme, authority string) (string, string, bool) {
+	host, port := splitAuthority(authority)
+	if port == "" {
+		port = map[string]string{"http": "80", "https": "443"}[scheme]
+	}
+	var es []credEntry
+	for _, s := range entries {
+		es = append(es, parseCredEntry(s))
+	}
+	for _, pass := range []func(e credEntry) bool{
+		func(e credEntry) bool { return e.host != "*" && e.port != "*" && e.host == host && e.port == port },
+		func(e credEntry) bool { return e.host == "*" && e.port != "*" && e.port == port },
+		func(e credEntry) bool { return e.host != "*" && e.port == "*" && e.host == host },
+		func(e credEntry) bool { return e.host == "*" && e.port == "*" },
+	} {
+		for _, e := range es {
+			if pass(e) {
+				return e.user, e.pass, true
+			}
+		}
+	}
+	return "", "", false
+}
+
+func coqWant(entries []string, scheme, authority string) string {
+	if u, p, ok := refSelect(entries, scheme, authority); ok {
+		return fmt.Sprintf("(Some (%s, %s))", coqfmt.Str(u), coqfmt.Str(p))
+	}
+	return "None"
 }
 
 func writeShardY(dir string, idx int, cases []string) {
@@ -1012,7 +1133,7 @@ func replayE2E(data []byte, out string, m *meta) {
 		fmt.Printf("replay e2e #%d: %s %s -> status=%d origin_requests=%d target=%q framing=%s body=%d equal=%v err=%s\n",
 			i, rp.Conn.Reqs[i].Method, sent[i].target, o.Status, o.Count, o.Target, o.Framing, o.BodyLen, o.BodyEqual, o.Err)
 	}
-	if rp.Conn.Mode == "R" {
+	if rp.Conn.Mode == "R" || strings.HasPrefix(rp.Conn.Mode, "C") {
 		writeShardY(out, 0, xc)
 		m.Shards = []string{"ycases_000.v"}
 		writeJSONL(out, "ycases.jsonl", xj)
